@@ -417,6 +417,8 @@ def check_property(prop, tier='quick', seed=0, only=None):
             if rep and rep.get('confirmed'):
                 res.violations.append(dict(kind='obligation', obligation=rec.full, line=rec.line, model=None, replay=rep,
                                            solver=[dict(reason=why)]))
+            elif second_opinion(rec):
+                pass            # discharged after all, with four times the budgets (busy machine, or a harmless edit made the query slower)
             elif lost_by_code_change(res, rec.full, it, None):
                 res.violations.append(dict(kind='obligation', obligation=rec.full, line=rec.line, model=None,
                                            replay=dict(confirmed=False, note='obligation was discharged on the baseline tree; the '
@@ -506,6 +508,24 @@ def merge_bounded(runs, seeds):
     b.pop('distinct_keys', None)
     b['seeds'] = list(seeds)
     return b
+
+
+def second_opinion(rec):
+    """re-solve the undecided queries of one obligation with four times the budgets; True iff all of them are then discharged (the obligation
+    counts as discharged), False otherwise (refuted or still undecided)"""
+    from .solve import solve_long
+    pending = [(r['key'], rec.queries[r['key'][1]][0]) for r in rec.results if r['status'] == 'unknown']
+    if not pending or len(pending) > 24:
+        return False
+    import multiprocessing
+    ctx = multiprocessing.get_context('fork')
+    with ctx.Pool(min(len(pending), 8)) as pl:
+        outs = pl.map(solve_long, pending, chunksize=1)
+    ok = all(o['status'] == 'unsat' for o in outs)
+    if ok:
+        rec.status = 'discharged'
+        log('  second opinion (4x budgets): %s discharged' % rec.full)
+    return ok
 
 
 def lost_by_code_change(res, full, it, eng):
